@@ -337,17 +337,18 @@ func (ww *conversionVisitor) visitEnumNode(node *sourcewalk.EnumNode) {
 		}
 
 		eb.desc.Options = &descriptorpb.EnumOptions{}
+		ww.file.ensureImport(j5ExtImport)
 		proto.SetExtension(eb.desc.Options, ext_j5pb.E_Enum, ext)
 	}
 
 	optionsToSet := node.Schema.Options
 	if len(optionsToSet) > 0 && optionsToSet[0].Number == 0 && strings.HasSuffix(optionsToSet[0].Name, "UNSPECIFIED") {
-		eb.addValue(0, optionsToSet[0])
+		eb.addValue(ww.file, 0, optionsToSet[0])
 		optionsToSet = optionsToSet[1:]
 	}
 
 	for idx, value := range optionsToSet {
-		eb.addValue(int32(idx+1), value)
+		eb.addValue(ww.file, int32(idx+1), value)
 	}
 
 	ww.parentContext.addEnum(eb)
